@@ -536,11 +536,11 @@ func main() {
 		det["gomaxprocs"] = []int{1, 4, 16}
 		if err != nil {
 			// Look again before crying wolf: three more fresh processes. What makes a run
-			// unreplayable is fresh executions that disagree with each other; then the check
-			// exits 2 (nothing this run reports could be replayed reliably). If all six fresh
-			// executions agree and only the execution inside the batch differs, that one
-			// execution was an outlier: recorded and reported as a warning, and the verdict
-			// of the oracles on the runs that were executed stands.
+			// unreplayable is fresh executions that disagree with each other: two or more
+			// of the six differing from the rest exit 2 (nothing this run reports could be
+			// replayed reliably). A single stray execution - the one inside the batch, or
+			// one of the six - is recorded and reported as a warning, and the verdict of
+			// the oracles on the runs that were executed stands.
 			if fresh == nil {
 				fatal2("determinism spot check could not be carried out: %v", err)
 			}
@@ -552,16 +552,23 @@ func main() {
 			disagree := ""
 			for idx, ls := range fresh {
 				all := append(append([]string{}, ls...), fresh2[idx]...)
-				for _, l := range all[1:] {
-					if l != all[0] {
-						disagree = fmt.Sprintf("run %d: fresh executions disagree with each other: %q vs %q", idx, all[0], l)
+				cnt := map[string]int{}
+				best := ""
+				for _, l := range all {
+					cnt[l]++
+					if cnt[l] > cnt[best] {
+						best = l
 					}
+				}
+				// one stray execution in six is tolerated (and recorded); two are a hole
+				if out := len(all) - cnt[best]; out >= 2 {
+					disagree = fmt.Sprintf("run %d: %d of %d fresh executions differ from the others: %v", idx, out, len(all), cnt)
 				}
 			}
 			if disagree != "" {
 				fatal2("NONDETERMINISM: %s", disagree)
 			}
-			det["result"] = "one execution inside the batch differed from six identical fresh executions of the same run (recorded as a warning): " + firstLine(err.Error())
+			det["result"] = "a single execution differed from the others (six fresh executions, at most one of them stray; recorded as a warning): " + firstLine(err.Error())
 		} else {
 			det["result"] = "identical schedule hash, trace hash and verdict in fresh processes"
 			fmt.Printf("determinism: %d runs re-executed in fresh processes at GOMAXPROCS 1/4/16: identical\n", n)
